@@ -1,0 +1,69 @@
+//go:build verif
+
+// Package verifx re-exports, for the verification harness only (build tag
+// "verif"), the parts of pkg/p2p/libp2p/internal/... that the harness has to
+// drive directly. It deliberately imports nothing but the internal blocklist
+// and handshake packages (no libp2p host, no quic).
+package verifx
+
+import (
+	"github.com/gauss-project/aurorafs/pkg/aurora"
+	"github.com/gauss-project/aurorafs/pkg/boson"
+	"github.com/gauss-project/aurorafs/pkg/crypto"
+	"github.com/gauss-project/aurorafs/pkg/logging"
+	"github.com/gauss-project/aurorafs/pkg/p2p/libp2p/internal/blocklist"
+	"github.com/gauss-project/aurorafs/pkg/p2p/libp2p/internal/handshake"
+	"github.com/gauss-project/aurorafs/pkg/p2p/libp2p/internal/handshake/pb"
+	"github.com/gauss-project/aurorafs/pkg/storage"
+	"github.com/gauss-project/aurorafs/pkg/topology/lightnode"
+
+	libp2ppeer "github.com/libp2p/go-libp2p-core/peer"
+)
+
+// ---- blocklist ----
+
+// Blocklist is the libp2p service's persistent peer blocklist.
+type Blocklist = blocklist.Blocklist
+
+// NewBlocklist is blocklist.NewBlocklist. The package reads the clock through
+// time.Now, which is the simulator's fake clock inside a synctest bubble, so no
+// clock setter is exported.
+func NewBlocklist(store storage.StateStorer) *Blocklist {
+	return blocklist.NewBlocklist(store)
+}
+
+// ---- handshake ----
+
+type (
+	// HandshakeService is handshake.Service.
+	HandshakeService = handshake.Service
+	// AdvertisableAddressResolver is handshake.AdvertisableAddressResolver.
+	AdvertisableAddressResolver = handshake.AdvertisableAddressResolver
+
+	// Handshake protocol messages.
+	Syn           = pb.Syn
+	Ack           = pb.Ack
+	SynAck        = pb.SynAck
+	BzzAddress    = pb.BzzAddress
+)
+
+const (
+	HandshakeProtocolName    = handshake.ProtocolName
+	HandshakeProtocolVersion = handshake.ProtocolVersion
+	HandshakeStreamName      = handshake.StreamName
+	MaxWelcomeMessageLength  = handshake.MaxWelcomeMessageLength
+)
+
+var (
+	ErrNetworkIDIncompatible = handshake.ErrNetworkIDIncompatible
+	ErrInvalidAck            = handshake.ErrInvalidAck
+	ErrInvalidSyn            = handshake.ErrInvalidSyn
+	ErrWelcomeMessageLength  = handshake.ErrWelcomeMessageLength
+	ErrPicker                = handshake.ErrPicker
+	ErrPickerLight           = handshake.ErrPickerLight
+)
+
+// NewHandshake is handshake.New.
+func NewHandshake(signer crypto.Signer, advertisableAddresser AdvertisableAddressResolver, overlay boson.Address, networkID uint64, nodeMode aurora.Model, welcomeMessage string, ownPeerID libp2ppeer.ID, logger logging.Logger, lightNodes *lightnode.Container, lightLimit int) (*HandshakeService, error) {
+	return handshake.New(signer, advertisableAddresser, overlay, networkID, nodeMode, welcomeMessage, ownPeerID, logger, lightNodes, lightLimit)
+}
